@@ -3,7 +3,7 @@
   `CleanSpace` (util.go), `DateConstraintFromString` (date_constraint.go), the `Equals` family and
   the three printers (`Date.String`, `DateRange.String`, `DateNode.String`).
 
-  The model describes the code *after* the C04 repair (fixes/C04-date-keywords.patch): the keyword
+  The model describes the code *after* the C04 repair (fixes/C04-date-keywords.patch, fixes/C04-range-string-uses-is.patch, fixes/C04-cleanspace-all-runs.patch): the keyword
   alternations of both patterns are quoted literally and tried longest first, and a word in the
   month position that is not a month makes the date invalid (checked after the calendar check).
 
@@ -83,15 +83,15 @@ def trimRight (s : Str) : Str := (trimFuel dropSpaceRuneRev s.length s.reverse).
 /-- `strings.TrimSpace` -/
 def trimSpace (s : Str) : Str := trimRight (trimLeft s)
 
-/-- `strings.Replace(s, "  ", " ", -1)`: non-overlapping, left to right -/
-def replace2 : Str → Str
-  | 32 :: 32 :: r => 32 :: replace2 r
-  | b :: r => b :: replace2 r
+/-- the fixpoint of `strings.Replace(s, "  ", " ", -1)`: every run of spaces becomes one space
+    (a space followed by a space is dropped) -/
+def collapseSpaces : Str → Str
   | [] => []
+  | a :: r => if a == 32 && r.head? == some 32 then collapseSpaces r else a :: collapseSpaces r
 
-/-- `CleanSpace` (util.go) exactly as coded: two passes of `"  " → " "`, then trim.  Five or more
-    consecutive spaces are therefore *not* reduced to one. -/
-def cleanSpace (s : Str) : Str := trimSpace (replace2 (replace2 s))
+/-- `CleanSpace` (util.go) after the repair fixes/C04-cleanspace-all-runs.patch: the replace pass
+    is repeated until no two consecutive spaces are left, then the result is trimmed. -/
+def cleanSpace (s : Str) : Str := trimSpace (collapseSpaces s)
 
 /-! ## numbers -/
 
@@ -386,9 +386,10 @@ def PDate.toString (d : PDate) : Str :=
 def rangeText (a b : PDate) : Str :=
   Generated.rangePrefix ++ a.toString ++ Generated.rangeInfix ++ b.toString
 
-/-- `DateRange.String`: decides with the constraint-aware `Equals` -/
+/-- `DateRange.String`: one date when both ends are the same date (`Is`), else both ends
+    (after the repair fixes/C04-range-string-uses-is.patch; before it the test was `Equals`) -/
 def DateRange.toString (r : DateRange) : Str :=
-  if r.start.equals r.end_ then r.start.toString else rangeText r.start r.end_
+  if r.start.is r.end_ then r.start.toString else rangeText r.start r.end_
 
 /-- `DateNode.String` of a DATE node whose value parsed to `r`: decides with `Is` -/
 def dateNodeToString (r : DateRange) : Str :=
